@@ -103,7 +103,52 @@ def show(v):
 
 
 # ------------------------------------------------------------------ building and running
-def py_context(case, ctx, kind=None):
+# phase 6: sparse keys that are not strings.  A case names its sparse features 'a'..'d'; `keystyle` says which Python objects
+# stand for them in the real contexts (per row: variant number `row % len(variants)`).  A feature is identified by key EQUALITY
+# (1 == 1.0 == True are one dict key), never by str()/repr() of the key.
+KEYSTYLES = {
+    "int": {"a": [0], "b": [1], "c": [2], "d": [7]},                                   # feature indices (libsvm, hashing)
+    "mixed": {"a": [1], "b": ["b"], "c": [2.5], "d": [(0, "x")]},                      # unorderable among each other
+    "equalnum": {"a": [1, 1.0, True], "b": [0, 0.0, False], "c": ["c"], "d": [2, 2.0]},  # equal keys of different types across rows
+    "collide": {"a": [1], "b": ["1"], "c": [1.5], "d": ["1.5"]},                       # different keys with the same str() (no indicators)
+}
+_KEYSTYLE = [None]
+
+
+def eff_keystyle(case):
+    """the key style in force: only plain dict contexts; 'collide' (different keys, same str()) not where Impute derives indicator
+    NAMES from keys (f"{k}_is_missing" of 1 and '1' coincide - the result could not be mapped back to features)"""
+    st = case.get("keystyle")
+    if not st or case.get("scontainer", "dict") != "dict":
+        return None
+    if st == "collide" and case.get("op") == "impute" and case.get("ind", True):
+        return None
+    return st
+
+
+def pykey(style, name, row=0):
+    if not style:
+        return name
+    vs = KEYSTYLES[style].get(name)
+    return name if vs is None else vs[row % len(vs)]
+
+
+def unkey(k):
+    """the case's name of a key found in a result context (identity for the default string keys)"""
+    style = _KEYSTYLE[0]
+    if not style:
+        return str(k)
+    for name, vs in KEYSTYLES[style].items():
+        if any(type(k) in (int, float, bool, str, tuple) and k == v and (isinstance(k, str) == isinstance(v, str)) for v in vs):
+            return name
+    if isinstance(k, str) and k.endswith("_is_missing"):
+        for name, vs in KEYSTYLES[style].items():
+            if any(k[:-11] == str(v) for v in vs):
+                return name + "_is_missing"
+    return k if isinstance(k, str) else "?" + repr(k)
+
+
+def py_context(case, ctx, kind=None, row=0):
     kind = kind or case["kind"]
     if kind == "dense":
         vals = [to_py(v) for v in ctx]
@@ -120,10 +165,10 @@ def py_context(case, ctx, kind=None):
             return R.HeadDense(vals, {"h%d" % i: i for i in range(len(vals))})
         raise ValueError(cont)
     if kind == "sparse":
-        d = {k: to_py(v) for k, v in ctx}
         cont = case.get("scontainer", "dict")
         if cont == "dict":
-            return d
+            return {pykey(eff_keystyle(case), k, row): to_py(v) for k, v in ctx}
+        d = {k: to_py(v) for k, v in ctx}
         from coba.pipes import rows as R
         if cont == "lazysparse":
             return R.LazySparse(lambda d=d: d)
@@ -137,11 +182,12 @@ def make_interactions(case, rows=None, kind=None):
     from coba.primitives import SimulatedInteraction, LoggedInteraction
     rows = case["rows"] if rows is None else rows
     out = []
+    _KEYSTYLE[0] = eff_keystyle(case)
     for i, ctx in enumerate(rows):
         if ctx == "nocontext":
             out.append({"action": i, "reward": 1, "tag": "t%d" % i})
             continue
-        c = py_context(case, ctx, kind)
+        c = py_context(case, ctx, kind, i)
         it = case.get("itype", "sim")
         if it == "sim":
             out.append(SimulatedInteraction(c, [(1, 0), (0, 1), (2, i)], [0.25, 0.5, float(i)], tag="t%d" % i, n=i))
@@ -154,11 +200,11 @@ def make_interactions(case, rows=None, kind=None):
 
 def canon_context(c):
     if isinstance(c, dict):
-        return {"kind": "sparse", "v": sorted(([str(k), from_py(v)] for k, v in c.items()), key=lambda kv: kv[0])}
+        return {"kind": "sparse", "v": sorted(([unkey(k), from_py(v)] for k, v in c.items()), key=lambda kv: kv[0])}
     if isinstance(c, (list, tuple)):
         return {"kind": "dense", "v": [from_py(v) for v in c]}
     if hasattr(c, "items") and hasattr(c, "keys"):
-        return {"kind": "sparse", "v": sorted(([str(k), from_py(v)] for k, v in c.items()), key=lambda kv: kv[0])}
+        return {"kind": "sparse", "v": sorted(([unkey(k), from_py(v)] for k, v in c.items()), key=lambda kv: kv[0])}
     if hasattr(c, "__iter__") and not isinstance(c, str):
         return {"kind": "dense", "v": [from_py(v) for v in c]}
     return {"kind": "scalar", "v": from_py(c)}
@@ -453,6 +499,127 @@ def run_seq(case):
             continue
         results.append((idx, finish_run(res, out, base, before, inter)))
     return results
+
+
+# ------------------------------------------------------------------ phase 6: histories over generators
+GENS_KEYS = ("seq", "mode", "read_order", "history", "gmode")
+
+
+def gens_subs(case):
+    cfg = {k: v for k, v in case.items() if k not in GENS_KEYS}
+    return [dict(cfg, **sub) for sub in case["seq"]]
+
+
+def canon_item(o):
+    """what a consumer sees of one yielded interaction: canonical context + the other fields"""
+    c = canon_context(o["context"]) if "context" in o else "nocontext"
+    return c, copy.deepcopy({k: v for k, v in o.items() if k != "context"})
+
+
+def run_gens(case):
+    """a HISTORY of open / next / close over generators made from ONE filter object (gmode 'reuse': obj.filter(seq[i])) or
+    from ONE Environments([..]).scale/impute call (gmode 'envs': envs[i].read()).  Nothing is drained unless the history says so.
+    returns dict(outs=[one record per operation], gens=[per generator: src, items (canonical, taken when yielded),
+    later (canonical, taken at the end of the history), others_bad], mutated=[per sequence])"""
+    import warnings
+    warnings.filterwarnings("ignore")
+    subs = gens_subs(case)
+    inters = [make_interactions(sc) for sc in subs]
+    befores = [copy.deepcopy([dict(i) for i in it]) for it in inters]
+    envs = flt = setup_err = None
+    bases = [None] * len(subs)
+    try:
+        if case["gmode"] == "envs":
+            from coba.environments import Environments
+            for i, it in enumerate(inters):
+                bases[i] = list(Environments(_mem_env(it))[0].read())
+            envs = Environments([_mem_env(it) for it in inters])
+            if case["op"] == "scale":
+                kw = {}
+                if case.get("using") is not None:
+                    kw["using"] = case["using"]
+                envs = envs.scale(param_py(case["shift"]), param_py(case["scale"]), **kw)
+            else:
+                stats = case["stats"] if len(case["stats"]) > 1 else case["stats"][0]
+                envs = envs.impute(stats, case["ind"], case.get("using"))
+        else:
+            bases = [list(it) for it in inters]
+            flt = make_filter(subs[0])
+    except Exception as e:  # noqa
+        setup_err = e
+    gens, outs = [], []
+    for t, n in case["history"]:
+        if t == "open":
+            if n >= len(subs):
+                outs.append({"t": "nosrc"})
+                continue
+            g = {"src": n, "raw": [], "items": [], "it": iter(()), "pending": None}
+            try:
+                if setup_err is not None:
+                    raise setup_err
+                g["it"] = iter(envs[n].read()) if envs is not None else iter(flt.filter(inters[n]))
+            except Exception as e:  # noqa: an exception of a non-lazy read() belongs to the first next
+                g["pending"] = e
+            gens.append(g)
+            outs.append({"t": "opened"})
+            continue
+        if n >= len(gens):
+            outs.append({"t": "nogen"})
+            continue
+        g = gens[n]
+        if t == "next":
+            if g["pending"] is not None:
+                e, g["pending"] = g["pending"], None
+                outs.append({"t": "raised", "g": n, "err": type(e).__name__, "msg": str(e)[:200]})
+                continue
+            try:
+                x = next(g["it"])
+                g["raw"].append(x)
+                g["items"].append(canon_item(x))
+                outs.append({"t": "item", "g": n, "j": len(g["items"]) - 1})
+            except StopIteration:
+                outs.append({"t": "stop", "g": n})
+            except Exception as e:  # noqa
+                g["it"] = iter(())
+                outs.append({"t": "raised", "g": n, "err": type(e).__name__, "msg": str(e)[:200]})
+        else:
+            g["pending"] = None
+            try:
+                cl = getattr(g["it"], "close", None)
+                if cl is not None:
+                    cl()
+                outs.append({"t": "closed", "g": n})
+            except Exception as e:  # noqa
+                outs.append({"t": "raised", "g": n, "err": type(e).__name__, "msg": "on close: " + str(e)[:200]})
+            g["it"] = iter(())
+    res_gens = []
+    for g in gens:
+        later = [canon_item(x) for x in g["raw"]]
+        fr_ = finish_run({}, g["raw"], (bases[g["src"]] or [])[:len(g["raw"])], befores[g["src"]], inters[g["src"]]) if bases[g["src"]] is not None else {}
+        res_gens.append({"src": g["src"], "items": g["items"], "later": later, "others_bad": fr_.get("others_bad"),
+                         "views_bad": fr_.get("views_bad")})
+    return {"outs": outs, "gens": res_gens, "mutated": [not same_py(b, [dict(i) for i in it]) for b, it in zip(befores, inters)]}
+
+
+def show_canon(c):
+    if not isinstance(c, dict) or "kind" not in c:
+        return str(c)
+    if c["kind"] == "dense":
+        return "[" + ", ".join(show(v) for v in c["v"]) + "]"
+    if c["kind"] == "sparse":
+        return "{" + ", ".join("%r: %s" % (k, show(v)) for k, v in c["v"]) + "}"
+    return show(c["v"])
+
+
+def canon_close(a, b):
+    """two canonical values agree (numbers up to float noise)"""
+    if isinstance(a, dict) and isinstance(b, dict):
+        return set(a) == set(b) and all(canon_close(a[k], b[k]) for k in a)
+    if isinstance(a, (list, tuple)) and isinstance(b, (list, tuple)):
+        return len(a) == len(b) and all(canon_close(x, y) for x, y in zip(a, b))
+    if is_num(a) and is_num(b):
+        return close(fr(a), fr(b), max(1.0, abs(float(fr(a)))))
+    return a == b
 
 
 # ------------------------------------------------------------------ exact reference (fractions)
@@ -1490,6 +1657,15 @@ class C11(Property):
             "produces, LazyDense, HeadDense; LazySparse, HeadSparse) and every result context is read by index and by repeated iteration; "
             "in 12% of the cases a pickle / deepcopy / copy of the filter object or of the whole Environments pipeline does the work and the "
             "original is used afterwards (both judged, configurations equal) ((A) outputs and .params vs the modelled argument glue). "
+            "phase 6: 8% of the cases (+184 corpus cases) are HISTORIES of open/next/close over 1-4 generators made from ONE filter object or ONE "
+            "Environments.scale/impute call on 2-3 sequences (families: all interleaved round-robin, first interaction of A then sibling B "
+            "completely then the rest of A, partial read + close + next after close + re-read beside a sibling, the same sequence twice "
+            "alternately, suspended frame never finished, random operations): every yielded interaction / StopIteration / exception is judged "
+            "against a fresh read of that generator's own sequence (itself judged against the exact reference) and against the Lean generator "
+            "machine (GenSt.run); interactions already handed out must not change later; 40% of the sparse dict cases (+222 corpus cases) use keys "
+            "that are not strings: ints, mixed unorderable types (int/str/float/tuple), equal keys of different types across rows (1, 1.0, True), "
+            "different keys with the same str() (1 and '1'; only where no indicator name is derived from a key) - a feature is a key up to "
+            "Python equality, results are mapped back to the case's feature names before judging. "
             "non-trivial = at least one cell is pinned by the exact reference and at least one value changes; distinct by canonical JSON")
     trusted_base = [
         "values are ints / dyadic floats with few bits so min/max/median/iqr/mode are exact in double precision; results involving a division "
@@ -1500,6 +1676,10 @@ class C11(Property):
         "statistics.stdev satisfies SqrtWithin with |δ| ≤ 1e-12 is checked on every std case; the driver uses a 20-digit root",
         "filter objects and Environments collections are modelled as state machines (`Obj.run`, `Coll.reads`, state = `_times`); "
         "sequence cases are compared with that stateful model; Finalize/BatchSafe added by Environments.__getitem__ are not modelled",
+        "generators (phase 6): a frame is modelled as fresh / running(rest) / done; the first `next` runs the whole pipeline prologue (window "
+        "read, parameters in frame locals), later ones hand out one interaction; that Python runs nothing before the first next and that "
+        "close() only abandons the frame is CPython semantics (trusted); laziness towards the SOURCE (how many interactions have been pulled) "
+        "is not an observable of the property and is not compared",
         "CPython's min/max/sorted/statistics.median/mode/fmean are modelled by their mathematical meaning (first maximal element for mode)",
         "argument glue: Environments.scale/impute and the Scale/Impute constructors are modelled as functions from the passed keywords to "
         "filter configurations (envScaleFilters, scaleCtorCfg, envImputeFilters); the real `.params` are compared with them on every case",
@@ -1853,6 +2033,8 @@ class C11(Property):
         return rng.choice(numbers)
 
     def generate(self, rng, tier):
+        if rng.chance(0.08):
+            return self.generate_gens(rng, tier)
         if rng.chance(0.2):
             return self.generate_seq(rng, tier)
         if rng.chance(0.05):
@@ -1880,7 +2062,7 @@ class C11(Property):
                 if other["rows"] and other["rows"][0] != "nocontext":
                     break
             subs.append({k: other[k] for k in table_keys if k in other})
-        case = {k: v for k, v in base.items() if k not in table_keys and k not in ("via", "stats_as_list", "omit", "targets", "targets_as_str", "clone")}
+        case = {k: v for k, v in base.items() if k not in table_keys and k not in ("via", "stats_as_list", "omit", "targets", "targets_as_str", "clone", "keystyle")}
         if op == "scale" and any(sc["kind"] == "sparse" for sc in subs) and rng.chance(0.7):
             case["shift"] = V(0)
         if op == "impute" and mode == "reuse":
@@ -1938,6 +2120,9 @@ class C11(Property):
             case["ind"] = rng.chance(0.5)
         if kind == "sparse" and rng.chance(0.2):
             case["scontainer"] = rng.choice(["lazysparse", "headsparse"])
+        elif kind == "sparse" and rng.chance(0.4):
+            # keys that are not strings; keys with equal str() only where no indicator NAME is derived from a key
+            case["keystyle"] = rng.choice(["int", "mixed", "equalnum", "collide"] if (op == "scale" or not case["ind"]) else ["int", "mixed", "equalnum"])
         if rng.chance(0.12) and case.get("container", "tuple") != "lazydense" and case.get("scontainer", "dict") == "dict":
             case["clone"] = rng.choice(["pickle", "pickle", "deepcopy", "copy"])     # a copy of the filter / pipeline does the work
         # argument glue: keywords left out (the case then states the documented default), targets, using=0, scale 0
@@ -2041,6 +2226,37 @@ class C11(Property):
                         cs.append({"op": "impute", "stats": [st], "ind": True, "using": using, "mode": mode,
                                    "seq": [sS, {"kind": "dense", "container": "list", "rows": [[n(1), None], [None, n(4)], [n(3), n(4)]], "itype": "sim"}, sP],
                                    "read_order": order + [2]})
+        # phase 6: histories of partial / abandoned / interleaved reads over generators of one object / one collection
+        dM = {"kind": "dense", "container": "list", "rows": [[n(1), None], [None, n(4)], [n(3), n(4)], [None, None]], "itype": "sim"}
+        sQ = {"kind": "sparse", "rows": [[["a", n(4)], ["b", None]], [["a", None]], [["a", n(8)], ["b", n(3)]]], "itype": "log"}
+        for gmode in ("reuse", "envs"):
+            for pat in self.GENS_PATTERNS[:-1]:
+                for using in (None, 1, 2):
+                    for cfgd, seqs in (({"op": "scale", "shift": "min", "scale": "minmax"}, [dA, dB]),
+                                       ({"op": "scale", "shift": "mean", "scale": "std"}, [sS, dC]),
+                                       ({"op": "scale", "shift": n(0), "scale": "maxabs"}, [sP, sQ]),
+                                       ({"op": "impute", "stats": ["mean"], "ind": True}, [dM, sS]),
+                                       ({"op": "impute", "stats": ["median"], "ind": False}, [sS, dM]),
+                                       ({"op": "impute", "stats": ["mode"], "ind": True}, [sQ, sP])):
+                        cs.append(dict(cfgd, using=using, mode="gens", gmode=gmode, seq=seqs, pattern=pat,
+                                       history=self.gens_history(pat, [len(t["rows"]) for t in seqs])))
+            cs.append({"op": "impute", "stats": ["mean", "mode"], "ind": True, "using": 2, "mode": "gens", "gmode": "envs", "seq": [dM, sS, sQ],
+                       "pattern": "interleave", "history": self.gens_history("interleave", [4, 4, 3])})
+            cs.append({"op": "scale", "shift": "min", "scale": "minmax", "using": None, "mode": "gens", "gmode": gmode, "seq": [sP, dA],
+                       "pattern": "interleave", "history": self.gens_history("interleave", [3, 3])})   # sparse + shift: raises at the first next
+        # phase 6: sparse keys that are not strings (ints, mixed unorderable types, 1 / 1.0 / True across rows, equal str())
+        kt = [[["a", n(2)], ["b", n(10)], ["d", None]], [["a", n(4)], ["b", None], ["c", n(8)]], [["a", None], ["c", n(4)], ["d", n(6)]],
+              [["a", n(8)], ["b", n(30)], ["c", None], ["d", n(2)]]]
+        for style in ("int", "mixed", "equalnum", "collide"):
+            for via in ("filter", "env"):
+                for using in (None, 2, 3):
+                    for sc in ("minmax", "maxabs", "iqr", n(2)):
+                        cs.append({"op": "scale", "kind": "sparse", "rows": kt, "shift": n(0), "scale": sc, "using": using, "via": via,
+                                   "itype": "sim", "keystyle": style})
+                    for st in ("mean", "median", "mode"):
+                        for ind in ((False,) if style == "collide" else (False, True)):
+                            cs.append({"op": "impute", "kind": "sparse", "rows": kt, "stats": [st], "ind": ind, "using": using, "via": via,
+                                       "itype": "log", "keystyle": style})
         # phase 2: nan as missing in Impute, indicator of a feature without imputation, std (exact-root and irrational variance)
         for kind, rows in (("dense", [[n(1), V("a")], [NAN, None], [None, V("a")], [n(3), V("b")]]),
                            ("sparse", [[["a", n(1)], ["s", V("x")]], [["a", NAN], ["s", None]], [["a", None]], [["a", n(3)], ["s", V("x")]]]),
@@ -2180,6 +2396,8 @@ class C11(Property):
 
     # ---- evaluation
     def evaluate(self, case, driver):
+        if case.get("mode") == "gens":
+            return self.evaluate_gens(case, driver)
         if "seq" in case:
             return self.evaluate_seq(case, driver)
         if case.get("ragged"):
@@ -2187,6 +2405,210 @@ class C11(Property):
         if case.get("op") == "stats":
             return self.evaluate_stats(case, driver)
         return self.evaluate_single(case, driver)
+
+    # ---- phase 6: histories of partial / abandoned / interleaved reads
+    @staticmethod
+    def gens_history(pattern, lens, rng=None):
+        """deterministic history families over the sequences with `lens` interactions (generator numbers = order of creation)"""
+        h = []
+        drain = lambda g, n: [["next", g]] * (n + 1)
+        if pattern == "interleave":          # all opened first, advanced round-robin to the end
+            for i in range(len(lens)):
+                h.append(["open", i])
+            for r in range(max(lens) + 1):
+                for g, n in enumerate(lens):
+                    if r <= n:
+                        h.append(["next", g])
+        elif pattern == "first-then-sibling":  # A fitted (first next), sibling B read completely, then the rest of A
+            h += [["open", 0], ["next", 0], ["open", 1]] + drain(1, lens[1]) + drain(0, lens[0] - 1)
+        elif pattern == "abandon-reread":    # read part of A, abandon it, read A again while a sibling is read
+            k = min(2, lens[0])
+            h += [["open", 0]] + [["next", 0]] * k + [["close", 0], ["next", 0], ["open", 0], ["open", 1]]
+            for r in range(max(lens[0], lens[1]) + 1):
+                if r <= lens[0]:
+                    h.append(["next", 1])
+                if r <= lens[1]:
+                    h.append(["next", 2])
+        elif pattern == "same-twice":        # two generators over the SAME sequence advanced alternately
+            h += [["open", 0], ["open", 0]]
+            for r in range(lens[0] + 1):
+                h += [["next", 0], ["next", 1]]
+        elif pattern == "unclosed-leftover":  # a frame suspended after its first interaction is never finished
+            h += [["open", 0], ["next", 0], ["open", 1], ["next", 1], ["open", 0]] + drain(2, lens[0]) + drain(1, lens[1] - 1)
+        else:                                # random operations, then everything still open is drained
+            opened = []
+            for _ in range(rng.choice([6, 10, 16, 24])):
+                c = rng.below(10)
+                if not opened or (c < 2 and len(opened) < 4):
+                    opened.append(rng.below(len(lens)))
+                    h.append(["open", opened[-1]])
+                elif c < 9:
+                    h.append(["next", rng.below(len(opened))])
+                else:
+                    h.append(["close", rng.below(len(opened))])
+            for g, i in enumerate(opened):
+                if rng.chance(0.7):
+                    h += drain(g, lens[i])
+        return h
+
+    GENS_PATTERNS = ["interleave", "first-then-sibling", "abandon-reread", "same-twice", "unclosed-leftover", "random"]
+
+    def generate_gens(self, rng, tier):
+        case = self.generate_seq(rng, tier)
+        case["gmode"] = case["mode"]
+        case["mode"] = "gens"
+        case.pop("read_order", None)
+        pat = rng.choice(self.GENS_PATTERNS)
+        case["pattern"] = pat
+        case["history"] = self.gens_history(pat, [len(sc["rows"]) for sc in case["seq"]], rng)
+        return case
+
+    def evaluate_gens(self, case, driver):
+        """every interaction yielded in a history of open/next/close over generators of ONE filter object / ONE
+        Environments.scale|impute call must be the interaction a fresh filter yields at that position of that generator's
+        OWN sequence (the fresh read itself is judged against the exact reference), whatever else happened in between"""
+        subs = gens_subs(case)
+        run = run_gens(case)
+        hist = case["history"]
+        fails = []
+        tags = ["gens:" + case["gmode"], "gens:pattern=" + case.get("pattern", "given"), "gens:n=%d" % len(subs),
+                "gens:ops=%s" % ("<=8" if len(hist) <= 8 else "<=20" if len(hist) <= 20 else ">20"),
+                "gens:generators=%d" % len(run["gens"])]
+        if any(t == "close" for t, _ in hist):
+            tags.append("gens:has-close")
+        srcs_open = [g["src"] for g in run["gens"]]
+        if len(srcs_open) != len(set(srcs_open)):
+            tags.append("gens:sequence-opened-twice")
+        via = "env" if case["gmode"] == "envs" else "filter"
+        fresh = {}
+        nontrivial = False
+        for i in sorted(set(srcs_open)):
+            sc = dict(subs[i], via=via)
+            fresh[i] = self.evaluate_single(sc, driver, in_seq=True)
+            for f in fresh[i]["fails"]:
+                fails.append(F(f["kind"], "[fresh read of sequence #%d] %s" % (i, f["what"]), f["sig"]))
+            tags += [t for t in fresh[i]["tags"] if t.startswith(("A-skipped", "raises:"))]
+            nontrivial = nontrivial or fresh[i]["nontrivial"]
+        fresh_ok = {i: not any(f["kind"] == "B" for f in fresh[i]["fails"]) for i in fresh}
+        op = case["op"]
+        # (B) operation by operation
+        nexts = {}
+        for pos, (o, (t, n)) in enumerate(zip(run["outs"], hist)):
+            if t == "open" or o["t"] in ("nogen", "nosrc"):
+                continue
+            g = run["gens"][n]
+            i = g["src"]
+            fi = fresh[i]["impl"]
+            if t == "close":
+                if o["t"] == "raised":
+                    fails.append(F("B", "closing generator #%d (sequence #%d) raised %s" % (n, i, o["err"]), "%s-close-raises-%s" % (op, o["err"])))
+                nexts[n] = None
+                continue
+            j = nexts.get(n, 0)
+            if j is None:
+                exp = {"t": "stop"}
+            elif "err" in fi:
+                exp = {"t": "raised", "err": fi["err"]}
+                nexts[n] = None
+            elif j < len(fi["out"]):
+                exp = {"t": "item", "ctx": fi["out"][j]}
+                nexts[n] = j + 1
+            else:
+                exp = {"t": "stop"}
+                nexts[n] = None
+            if not fresh_ok[i]:
+                continue
+            where = "operation %d of the history, next on generator #%d over sequence #%d (%s), position %d" % (pos + 1, n, i, subs[i]["kind"], j or 0)
+            if o["t"] != exp["t"] or (o["t"] == "raised" and o["err"] != exp["err"]):
+                got = "an interaction" if o["t"] == "item" else "StopIteration" if o["t"] == "stop" else "raised " + o.get("err", "?")
+                want = "an interaction" if exp["t"] == "item" else "StopIteration" if exp["t"] == "stop" else "raises " + exp.get("err", "?")
+                fails.append(F("B", "%s: got %s; a fresh %s reading that sequence alone gives %s" % (where, got, op, want),
+                               "%s-history-dependent-result:%s-for-%s" % (op, o["t"], exp["t"])))
+            elif o["t"] == "item":
+                ctx = g["items"][o["j"]][0]
+                if not canon_close(ctx, exp["ctx"]):
+                    fails.append(F("B", "%s: yielded context %s; a fresh %s reading that sequence alone yields %s there (which is what the window statistics give)"
+                                   % (where, show_canon(ctx), op, show_canon(exp["ctx"])), "%s-history-dependent-result:context" % op))
+        for n, g in enumerate(run["gens"]):
+            if not fresh_ok[g["src"]]:
+                continue
+            for j, (a, b) in enumerate(zip(g["items"], g["later"])):
+                if not (canon_close(a[0], b[0]) and same_py(a[1], b[1])):
+                    fails.append(F("B", "interaction %d yielded by generator #%d (sequence #%d) was %s when handed out and reads %s after the later "
+                                   "operations of the history" % (j, n, g["src"], show_canon(a[0]), show_canon(b[0])),
+                                   "%s-yielded-interaction-changed-later" % op))
+                    break
+            if g["others_bad"]:
+                fails.append(F("B", "generator #%d (sequence #%d): fields other than the context changed: %s" % (n, g["src"], g["others_bad"]),
+                               "%s-other-field-changed" % op))
+            if g["views_bad"]:
+                fails.append(F("B", "generator #%d: a result context reads differently by index and by iteration: %s" % (n, g["views_bad"]),
+                               "%s-context-reads-inconsistently" % op))
+        if any(run["mutated"]):
+            fails.append(F("A", "the caller's interactions were modified in place", "A:input-mutated:%s" % op))
+        model = None
+        if driver is not None and not any(t.startswith("A-skipped") for t in tags):
+            req = {"op": "gens", "seqop": op, "using": case.get("using"), "history": hist,
+                   "seq": [{"kind": sc["kind"], "rows": self.rows_to_lean(sc["kind"], sc["rows"])} for sc in subs]}
+            if op == "scale":
+                req["shift"], req["scale"] = param_lean(case["shift"]), param_lean(case["scale"])
+            else:
+                req["stats"], req["ind"] = case["stats"], case["ind"]
+            ans = driver.ask(req)
+            model = ans["outs"]
+            if ans["outs"] != ans["spec"]:
+                fails.append(F("C", "generator machine and cursor machine of generator_histories differ on this history", "C:gens-spec"))
+            per = {}
+            bad = None
+            for pos, (o, m) in enumerate(zip(run["outs"], model)):
+                if o["t"] != m["t"] or (o["t"] == "raised" and o["err"] != m["err"]):
+                    bad = "operation %d (%s %d): implementation %s, model %s" % (pos + 1, hist[pos][0], hist[pos][1], o["t"] + (":" + o["err"] if "err" in o else ""),
+                                                                           m["t"] + (":" + m["err"] if "err" in m else ""))
+                    break
+                if o["t"] == "item":
+                    per.setdefault(o["g"], []).append(m["item"])
+            if bad is None:
+                for n, items in per.items():
+                    g = run["gens"][n]
+                    kinds = set(x["kind"] for x in items)
+                    if len(kinds) != 1:
+                        bad = "generator #%d: the model yields contexts of different kinds" % n
+                        break
+                    sc = subs[g["src"]]
+                    d = self.compare_model(sc, {"out": [c for c, _ in g["items"]]},
+                                           {"model": {"kind": items[0]["kind"], "rows": [x["row"] for x in items]},
+                                            "fits": (ans.get("fits") or [[]] * len(subs))[g["src"]]})
+                    if d:
+                        bad = "generator #%d (sequence #%d): %s" % (n, g["src"], d[1])
+                        break
+            if bad:
+                fails.append(F("A", "implementation and generator model differ: %s" % bad, "A:%s:gens" % op))
+            tags.append("gens:model-checked")
+        n_items = sum(1 for o in run["outs"] if o["t"] == "item")
+        tags.append("gens:items=%s" % ("0" if n_items == 0 else "<=5" if n_items <= 5 else ">5"))
+        return {"fails": fails, "nontrivial": bool(nontrivial and n_items > 1 and len(run["gens"]) > 1), "tags": tags,
+                "impl": run["outs"], "model": model}
+
+    def shrink_gens(self, case):
+        hist, subs = case["history"], case["seq"]
+        for p in range(len(hist) - 1, -1, -1):
+            if hist[p][0] != "open":
+                yield dict(case, history=hist[:p] + hist[p + 1:])
+        for p in range(len(hist) - 1, -1, -1):
+            if hist[p][0] == "open":
+                g = sum(1 for t, _ in hist[:p] if t == "open")
+                if not any(t != "open" and n == g for t, n in hist):
+                    yield dict(case, history=hist[:p] + [[t, n - 1 if (t != "open" and n > g) else n] for t, n in hist[p + 1:]])
+        if case.get("using") is not None:
+            yield dict(case, using=None)
+        if case["gmode"] == "envs":
+            yield dict(case, gmode="reuse", stats=case["stats"][:1]) if case["op"] == "impute" else dict(case, gmode="reuse")
+        cfg = {k: v for k, v in case.items() if k not in GENS_KEYS and k != "pattern"}
+        for i, sub in enumerate(subs):
+            for c in self.shrink_single(dict(cfg, **sub)):
+                if any(c.get(k) != cfg.get(k) for k in cfg):
+                    continue
+                yield dict(case, seq=subs[:i] + [{k: c[k] for k in ("kind", "rows", "container", "scontainer", "itype") if k in c}] + subs[i + 1:])
 
     def evaluate_seq(self, case, driver):
         """the same filter object / the same Environments.scale|impute call over several different sequences:
@@ -2269,6 +2691,8 @@ class C11(Property):
             tags.append("has:nan")
         if any(is_str(v) for v in flat):
             tags.append("has:str")
+        if kind == "sparse" and eff_keystyle(case):
+            tags.append("keystyle:" + eff_keystyle(case))
         first = rows[0]
         ffirst = first if kind == "dense" else [x for _, x in first] if kind == "sparse" else [first]
         if any(v is None or v == NAN for v in ffirst):
@@ -2630,6 +3054,9 @@ class C11(Property):
 
     # ---- shrinking
     def shrink(self, case):
+        if case.get("mode") == "gens":
+            yield from self.shrink_gens(case)
+            return
         if "seq" in case:
             yield from self.shrink_seq(case)
             return
@@ -2660,6 +3087,8 @@ class C11(Property):
 
     def shrink_single(self, case):
         rows = case["rows"]
+        if case.get("keystyle"):
+            yield {k: v for k, v in case.items() if k != "keystyle"}      # does it fail with plain string keys too?
         kind = case["kind"]
         n = len(rows)
         for i in range(n - 1, -1, -1):
@@ -2710,6 +3139,15 @@ class C11(Property):
                     "case = json.loads(%r)\n"
                     "print('column (non-missing values):', [to_py(v) for v in case['col'] if v is not None and v != 'nan'])\n"
                     "print('coba.statistics.iqr / percentile([.25,.75]) / statistics.median / mode:', stats_impl(case['col']))\n" % json.dumps(case))
+        if case.get("mode") == "gens":
+            return ("import sys, os, json; sys.path[:0] = [os.environ.get('COBA_REPO', '/repo'), '/verif/harness']\n"
+                    "from props.c11 import run_gens, gens_subs, make_interactions\n"
+                    "case = json.loads(%r)\n"
+                    "# gmode 'reuse': ONE Scale/Impute object, open i = obj.filter(sequence i); 'envs': Environments([..]).scale/impute, open i = envs[i].read()\n"
+                    "# history: open i / next g / close g (generators numbered in order of creation); nothing is drained unless the history says so\n"
+                    "for i, sc in enumerate(gens_subs(case)): print('sequence', i, [x.get('context') for x in make_interactions(sc)])\n"
+                    "r = run_gens(case)\n"
+                    "for op, o in zip(case['history'], r['outs']): print(op, '->', o['t'], r['gens'][o['g']]['items'][o['j']][0] if o['t'] == 'item' else o.get('err', ''))\n" % json.dumps(case))
         if "seq" in case:
             return ("import sys, os, json; sys.path[:0] = [os.environ.get('COBA_REPO', '/repo'), '/verif/harness']\n"
                     "from props.c11 import run_seq, sub_cases, make_interactions\n"
